@@ -3,6 +3,7 @@ import RTA.Lemmas.FpSoundEq
 import RTA.Lemmas.FpSoundEqExample
 import RTA.Lemmas.FpSoundCompliant
 import RTA.Lemmas.FpSoundCompliantExample
+import RTA.Lemmas.FpSoundBlocking
 /-! # C01 — the fixed-priority RTAs are safe for every legal schedule
 
 Spec: `RTA/Spec/Sched.lean` — discrete-time schedules on a dedicated unit-speed processor;
@@ -210,5 +211,57 @@ theorem task_set_nonvacuous :
     hepOthers FpEqExample.eqTs FpEqExample.eqPr 0 = [FpEqExample.tua] ∧
     (∀ j, j < FpEqExample.eqSys.n → FpEqExample.eqSys.task j = 0 → MeetsBound FpEqExample.eqSys j 2) :=
   ⟨FpEqExample.eqSys_compliant, FpEqExample.eqSys_hepOthers, FpEqExample.eqSys_meets_task_set⟩
+
+/-! ## "Blocking bound set to the longest lower-priority non-preemptive segment minus one"
+
+The property's wording, made literal: `sg x` is the maximal non-preemptive segment length of
+task `x` (`SegmentsBounded s sg`: every run of consecutive non-preemptable service levels of a
+job of task `x` is at most `sg x - 1` long), and the analysis is called with
+`lpBlocking ts.length pr sg i` = the maximum of `sg x - 1` over the tasks `x` of strictly lower
+priority (0 if there is none).  No hypothesis mentions a blocking bound any more. -/
+
+theorem floating_nonpreemptive_safe_task_set_segments (s : Sys) (ts : List (Arr × Cost))
+    (pr : ℕ → ℕ) (i : ℕ) (hi : i < ts.length)
+    (hwf : ∀ p ∈ ts, p.1.WF ∧ p.2.WF) (hex : ∀ x, x < ts.length → (taskRB ts x).Exact)
+    (hc : Compliant s ts) (hl : JlfpLegal s (hepFPe s pr)) (sg : ℕ → ℕ)
+    (hseg : SegmentsBounded s sg) (hpos : ∀ k, k < s.n → 1 ≤ s.cost k)
+    (limit R : ℕ)
+    (hR : fpFloating (taskRB ts i) (lpBlocking ts.length pr sg i) (hepOthers ts pr i) limit
+      = .ok R) :
+    ∀ j, j < s.n → s.task j = i → MeetsBound s j R :=
+  fp_floating_sound_of_segments s ts pr i hi hwf hex hc hl sg hseg hpos limit R hR
+
+theorem fully_nonpreemptive_safe_task_set_segments (s : Sys) (ts : List (Arr × Cost))
+    (pr : ℕ → ℕ) (i : ℕ) (hi : i < ts.length) (a : Arr) (C : ℕ) (hts : ts[i] = (a, .scalar C))
+    (hwf : ∀ p ∈ ts, p.1.WF ∧ p.2.WF) (hexa : a.Exact)
+    (hex : ∀ x, x < ts.length → pr x ≤ pr i → x ≠ i → (taskRB ts x).Exact)
+    (hc : Compliant s ts) (hl : JlfpLegal s (hepFPe s pr)) (sg : ℕ → ℕ)
+    (hseg : SegmentsBounded s sg) (hpos : ∀ k, k < s.n → 1 ≤ s.cost k)
+    (hown : ∀ j, j < s.n → s.task j = i → ∀ x, 1 ≤ x → x < s.cost j → s.np j x)
+    (limit R : ℕ)
+    (hR : fpNonpreemptive a C (lpBlocking ts.length pr sg i) (hepOthers ts pr i) limit = .ok R) :
+    ∀ j, j < s.n → s.task j = i → MeetsBound s j R :=
+  fp_nonpreemptive_sound_of_segments s ts pr i hi a C hts hwf hexa hex hc hl sg hseg hpos hown
+    limit R hR
+
+theorem limited_preemptive_safe_task_set_segments (s : Sys) (ts : List (Arr × Cost))
+    (pr : ℕ → ℕ) (i : ℕ) (hi : i < ts.length) (a : Arr) (C last : ℕ)
+    (hts : ts[i] = (a, .scalar C))
+    (hwf : ∀ p ∈ ts, p.1.WF ∧ p.2.WF) (hexa : a.Exact)
+    (hex : ∀ x, x < ts.length → pr x ≤ pr i → x ≠ i → (taskRB ts x).Exact)
+    (hc : Compliant s ts) (hl : JlfpLegal s (hepFPe s pr)) (sg : ℕ → ℕ)
+    (hseg : SegmentsBounded s sg) (hpos : ∀ k, k < s.n → 1 ≤ s.cost k)
+    (hlast1 : 1 ≤ last) (hlastC : last ≤ C)
+    (hown : ∀ j, j < s.n → s.task j = i →
+      ∀ x, max 1 (s.cost j - (last - 1)) ≤ x → x < s.cost j → s.np j x)
+    (limit R : ℕ)
+    (hR : fpLimited a C last (lpBlocking ts.length pr sg i) (hepOthers ts pr i) limit = .ok R) :
+    ∀ j, j < s.n → s.task j = i → MeetsBound s j R :=
+  fp_limited_sound_of_segments s ts pr i hi a C last hts hwf hexa hex hc hl sg hseg hpos
+    hlast1 hlastC hown limit R hR
+
+/-- the prescribed blocking bound dominates `sg x - 1` of every lower-priority task -/
+theorem blocking_bound_dominates (n : ℕ) (pr sg : ℕ → ℕ) (i x : ℕ) (hx : x < n)
+    (hlp : pr i < pr x) : sg x - 1 ≤ lpBlocking n pr sg i := le_lpBlocking n pr sg i x hx hlp
 
 end RTA.C01
